@@ -484,7 +484,10 @@ def compute_reproject_roi(
     """
     # pylint: disable=too-many-locals
 
-    pts_per_side = 5
+    # curved edges are bounded by sampling them: keep the samples at most ~50 pixels apart, the
+    # bulge between two samples of an 800 pixel LAEA raster seen from lon/lat is more than 2 pixels
+    # with 5 samples per side
+    pts_per_side = max(5, 1 + max(*src.shape, *dst.shape) // 50)
 
     tr = native_pix_transform(src, dst)
 
